@@ -305,6 +305,7 @@ def generic_linear(n_in, n_out, seed, dtype, tag=0):
 
 VARIANTS = ("prev", "mlp", "logfeat", "modout", "ww", "wwpre")     # simplest first: first counterexample per signature is stored
 N_PATHS = (2, 3)
+BAD_PARTNER = {0: 1, 1: 0, 2: 1}    # a second "hedging instrument" whose series has another number of time steps
 LISTED_HEDGE_OF = 2    # index of the derivative that is hedged with a listed option instead of its underlier
 #: (primary kind, derivative kind, declared dtype, number of time steps)
 H_ALPHABET = [1.28, 1.3125, 1.33]   # around the strike 1.3: Black-Scholes gamma does not underflow, gradients are finite
@@ -367,6 +368,7 @@ class HWorld:
         self.hedges[LISTED_HEDGE_OF] = [self.listed]
         self.hedger, self.aux = make_hedger(variant, self.derivs, seed)
         self.copy, self.copy_aux, self.copy_access = None, [], None     # copy.deepcopy of the hedger (operation "copy")
+        self.ambient = "float32"    # torch default dtype in force while operations run (operation "default")
         self.last = None
         self.trace = []
         self.access = None      # last evaluation of the hedger's features: (derivative, time step | 'all')
@@ -412,7 +414,7 @@ class HWorld:
         # which time steps they were last asked for is part of the state (access-order histories)
         hidden = (bool(self.hedger.training), _names(self.hedger), _names(self.hedger.model),
                   tuple(_names(d) for d in self.derivs), tuple(_names(p) for p in self.prims),
-                  self.access if self.aux else None)
+                  self.access if self.aux else None, self.ambient)
         cp = None
         if self.copy is not None:
             cpo = getattr(self.copy, "prev_output", None)
@@ -467,8 +469,11 @@ class HWorld:
         if self.failed:
             return False
         kind = op[0]
-        if kind in ("sim", "dto", "eval", "train"):
+        if kind in ("sim", "dto", "eval", "train", "default"):
             return True
+        if kind in ("badprice", "badloss", "badpl"):
+            i = op[1]
+            return self.simulated(BAD_PARTNER[i]) and (kind != "badpl" or self.simulated(i))
         pd = self.param_dtype()
         if kind == "hto":
             return pd is not None
@@ -500,7 +505,22 @@ class HWorld:
             return pd is None or pd == self.prims[i].dtype
         raise KeyError(kind)
 
-    def apply(self, op, observe=True):
+    def apply(self, op, observe=True, ambient=None):
+        """Run one operation under the world's ambient default dtype (or ``ambient``); the process-wide
+        state (default dtype, grad mode) is recorded before/after and always restored."""
+        d0, g0 = torch.get_default_dtype(), torch.is_grad_enabled()
+        try:
+            torch.set_default_dtype(DT[ambient or self.ambient])
+            self.ambient_pre = (torch.is_grad_enabled(), NAME[torch.get_default_dtype()], bool(self.hedger.training))
+            self.ambient_post = None
+            return self._apply(op, observe)
+        finally:
+            self.ambient_post = (torch.is_grad_enabled(), NAME.get(torch.get_default_dtype(), "?"),
+                                 bool(self.hedger.training))
+            torch.set_default_dtype(d0)
+            torch.set_grad_enabled(g0)
+
+    def _apply(self, op, observe=True):
         kind = op[0]
         h = self.hedger
         if observe:
@@ -540,11 +560,32 @@ class HWorld:
             # through hedge(t) -> prev_hedge -> hedge(t+1)), so it observes the autograd side of the hedger's state
             loss = h.compute_loss(self.derivs[op[1]], hedge=self.hedges[op[1]], n_paths=op[2])
             params = list(h.parameters()) + [q for m in self.aux for q in m.parameters()]
-            grads = torch.autograd.grad(loss, params, allow_unused=True) if params and loss.requires_grad else ()
-            out = {"loss": loss.detach(), "grad": [None if g is None else g.detach() for g in grads]}
+            try:
+                grads = torch.autograd.grad(loss, params, allow_unused=True) if params and loss.requires_grad else ()
+                grads = [None if g is None else g.detach() for g in grads]
+            except RuntimeError as e:       # e.g. a stale graph kept by the hedger: an observation, not a harness error
+                grads = Raised(f"RuntimeError: {str(e)[:120]}")
+            out = {"loss": loss.detach(), "grad": grads}
         elif kind in ("eval", "train"):
             getattr(h, kind)()
             out = None
+        elif kind == "default":
+            self.ambient = op[1]
+            out = None
+        elif kind in ("badprice", "badloss", "badpl"):
+            # hedge list with mismatched simulated sizes: the library raises ValueError/RuntimeError (after simulating, for
+            # price/compute_loss); the raise itself is the expected result, the ambient state must survive it
+            i = op[1]
+            bad = [self.prims[i], self.prims[BAD_PARTNER[i]]]
+            try:
+                if kind == "badprice":
+                    out = h.price(self.derivs[i], hedge=bad, n_paths=op[2])
+                elif kind == "badloss":
+                    out = h.compute_loss(self.derivs[i], hedge=bad, n_paths=op[2]).detach()
+                else:
+                    out = h.compute_pl(self.derivs[i], hedge=bad)
+            except (ValueError, RuntimeError) as e:      # size check in compute_hedge / torch.stack of the spots
+                out = Raised(f"{type(e).__name__}: {str(e)[:160]}")
         elif kind == "price":
             out = h.price(self.derivs[op[1]], hedge=self.hedges[op[1]], n_paths=op[2])
         elif kind == "fit":
@@ -591,7 +632,7 @@ class PreScaledWW(torch.nn.Module):
     def __init__(self, ww):
         super().__init__()
         self.ww = ww
-        self.scale = torch.nn.Parameter(torch.tensor([1.0, 1.0625, 0.9375]))
+        self.scale = torch.nn.Parameter(torch.tensor([1.0, 1.0625, 0.9375], dtype=torch.float32))
 
     def forward(self, input):
         scaled = input[..., :-1] * self.scale.to(input.dtype)
@@ -645,6 +686,11 @@ def operations(variant, tier="thorough"):
     derivatives, both path counts, both cast directions, get_input at several time steps of one derivative so
     that non-monotone access orders arise as histories); the thorough tier the full product."""
     nd = len(DERIVS)
+    if tier == "quick" and variant == "logfeat":
+        # log features: the histories that matter are repeated evaluations and re-simulations
+        return [("hedge", 0), ("hedge", 1), ("hedge", 2), ("pl", 0), ("sim", 0, 3), ("dto", 1, "float32"),
+                ("hto", "float64"), ("loss", 0, 2), ("price", 0, 3), ("fit", 0, 2), ("input", 0, None),
+                ("badprice", 0, 2)]
     if tier == "quick" and variant == "wwpre":
         # the trainable Whalley-Wilmott hedger is there for the gradient observations: operations that change
         # mode, parameters, dtype and data around compute_loss (value + gradient)
@@ -658,7 +704,7 @@ def operations(variant, tier="thorough"):
                 ("dto", 0, "float64"), ("dto", 1, "float32"), ("dto", 2, "float64"),
                 ("loss", 0, 2), ("loss", 1, 3), ("loss", 2, 2), ("price", 0, 3),
                 ("fit", 0, 2), ("fit", 1, 3),
-                ("input", 0, None), ("input", 2, 1),
+                ("input", 0, None), ("input", 2, 1), ("badprice", 0, 2),
                 # non-monotone get_input orders where bound features survive between calls (ModuleOutput binds in place)
                 ] + ([("input", 0, 2), ("input", 0, 1)] if variant == "modout" else []
                      ) + ([("eval",)] if variant == "prev" else []                  # gradient path through prev_hedge
@@ -687,6 +733,11 @@ def operations(variant, tier="thorough"):
             ops.append(("input", i, t))
     ops += [("eval",), ("train",), ("copy",)]
     for i in range(nd):
+        ops += [("badprice", i, 2), ("badpl", i)]
+    ops.append(("badloss", 0, 2))
+    if variant in ("mlp", "ww"):     # ambient default dtype as an operation: vectorised and stepwise branch (all variants: oracle 3c)
+        ops += [("default", "float64"), ("default", "float32")]
+    for i in range(nd):
         ops.append(("chedge", i))
     return ops
 
@@ -696,11 +747,11 @@ class Raised(str):
     every enabled operation, so this is compared like a value and reported)."""
 
 
-def safe_apply(w, op, observe=False):
+def safe_apply(w, op, observe=False, ambient=None):
     """apply(), but an exception raised inside pfhedge becomes a Raised value."""
     from mc.core.runner import blame
     try:
-        return w.apply(op, observe=observe)
+        return w.apply(op, observe=observe, ambient=ambient)
     except Exception as e:
         if blame(e) is None:
             raise
@@ -731,17 +782,18 @@ def data_projection(history):
         op = tuple(op)
         if op[0] in ("sim", "dto"):
             out.append(op)
-        elif op[0] in ("loss", "price", "fit"):
+        elif op[0] in ("loss", "price", "fit", "badprice", "badloss"):
             out.append(("sim", op[1], op[2]))
     return out
 
 
 def may_change(op):
     """Frame rule: index of the derivative whose series the operation may replace / cast."""
-    return op[1] if op[0] in ("sim", "dto", "loss", "price", "fit") else None
+    return op[1] if op[0] in ("sim", "dto", "loss", "price", "fit", "badprice", "badloss") else None
 
 
-ENTRY = {"eval": "Hedger.eval", "train": "Hedger.train", "copy": "copy.deepcopy(Hedger)", "chedge": "Hedger.compute_hedge",
+ENTRY = {"default": "torch.set_default_dtype", "badprice": "Hedger.price", "badloss": "Hedger.compute_loss",
+         "badpl": "Hedger.compute_pl", "eval": "Hedger.eval", "train": "Hedger.train", "copy": "copy.deepcopy(Hedger)", "chedge": "Hedger.compute_hedge",
          "sim": "BaseDerivative.simulate", "dto": "BaseDerivative.to", "hto": "Hedger.to",
          "hedge": "Hedger.compute_hedge", "pl": "Hedger.compute_pl", "input": "Hedger.get_input",
          "loss": "Hedger.compute_loss", "price": "Hedger.price", "fit": "Hedger.fit"}
